@@ -91,6 +91,88 @@ fn defined_names(forms: &[Sx]) -> Vec<String> {
     v
 }
 
+/// C05 scenarios with closed-form expectations: (form, expected outcome)
+fn cont_scenario(case: usize, rng: &mut Rng) -> Vec<(String, String)> {
+    let v = rng.range(-50, 50);
+    let w = rng.range(-50, 50);
+    let c = rng.range(0, 9);
+    let d = rng.below(6) as i64; // nesting depth of the escape
+    let mut forms: Vec<(String, String)> = vec![];
+    let void = || "ok #<void>".to_string();
+    forms.push(("(define (deepcall n thunk) (if (= n 0) (thunk) (+ 0 (deepcall (- n 1) thunk))))".into(), void()));
+    forms.push(("(define kk #f)".into(), void()));
+    forms.push(("(define g 0)".into(), void()));
+    forms.push(("(define kv (vector #f #f))".into(), void()));
+    forms.push(("(define kp (cons #f #f))".into(), void()));
+    match case % 9 {
+        0 => {
+            // escape from depth d, value delivered to a pending (+ c _)
+            forms.push((format!("(+ {} (call/cc (lambda (k) (* 2 (deepcall {} (lambda () (k {})))))))", c, d, v), format!("ok {}", c + v)));
+        }
+        1 => {
+            // receiver returns normally: behaves like an ordinary call
+            forms.push((format!("(+ {} (call/cc (lambda (k) (deepcall {} (lambda () {})))))", c, d, v), format!("ok {}", c + v)));
+        }
+        2 => {
+            // re-entry from later top-level forms, several times
+            forms.push((format!("(define r (+ {} (call/cc (lambda (k) (set! kk k) {}))))", c, v), void()));
+            forms.push(("r".into(), format!("ok {}", c + v)));
+            for j in 0..(1 + case % 3) {
+                let x = w + j as i64;
+                // invoking kk finishes the *define* form again: its value is #<void>
+                forms.push((format!("(begin (set! g (+ g 1)) (kk {}) 'never)", x), void()));
+                forms.push(("r".into(), format!("ok {}", c + x)));
+                forms.push(("g".into(), format!("ok {}", j + 1))); // mutations since capture stay
+            }
+        }
+        3 => {
+            // operands evaluated before capture keep their values; later operands are evaluated
+            // again and see mutations
+            forms.push(("(define cnt 0)".into(), void()));
+            forms.push((format!("(define lst (list (begin (set! cnt (+ cnt 1)) cnt) (call/cc (lambda (k) (set! kk k) {})) (begin (set! cnt (+ cnt 10)) cnt)))", v), void()));
+            forms.push(("lst".into(), format!("ok (1 {} 11)", v)));
+            forms.push((format!("(kk {})", w), void()));
+            forms.push(("lst".into(), format!("ok (1 {} 21)", w)));
+            forms.push((format!("(kk {})", v), void()));
+            forms.push(("lst".into(), format!("ok (1 {} 31)", v)));
+        }
+        4 => {
+            // continuation stored in a vector / pair, invoked from map / for-each callbacks
+            forms.push((format!("(+ {} (call/cc (lambda (k) (vector-set! kv 1 k) (set-car! kp k) (apply + (map (lambda (x) (if (= x 2) ((vector-ref kv 1) {}) x)) (list 1 2 3))))))", c, v), format!("ok {}", c + v)));
+            forms.push((format!("(+ {} (call/cc (lambda (k) (set-cdr! kp k) (for-each (lambda (x) (if (= x 3) ((cdr kp) {}) x)) (list 1 2 3)) 0)))", c, w), format!("ok {}", c + w)));
+        }
+        5 => {
+            // call/cc in tail position of a loop; k invoked inside another continuation's extent
+            forms.push((format!("(define (lp n acc) (if (= n 0) acc (call/cc (lambda (k) (lp (- n 1) (+ acc (call/cc (lambda (j) (if (= n 2) (k {}) (j 1))))))))))", v), void()));
+            forms.push(("(lp 3 0)".into(), format!("ok {}", v)));
+            forms.push(("(lp 1 5)".into(), "ok 6".into()));
+        }
+        6 => {
+            // zero arguments is an error; several arguments deliver the last one
+            forms.push(("(call/cc (lambda (k) (k)))".into(), "err syntax".into()));
+            forms.push((format!("(+ {} (call/cc (lambda (k) (k 1 2 {}))))", c, v), format!("ok {}", c + v)));
+            forms.push(("(call/cc 5)".into(), "err syntax".into()));
+            forms.push(("(procedure? (call/cc (lambda (k) k)))".into(), "ok #t".into()));
+        }
+        7 => {
+            // generator: re-enter a loop's continuation from later forms
+            forms.push((format!("(define total (let loop ((i 0) (acc 0)) (if (= i 3) acc (loop (+ i 1) (+ acc (call/cc (lambda (k) (if (= i 1) (set! kk k)) {})))))))", v), void()));
+            forms.push(("total".into(), format!("ok {}", 3 * v)));
+            forms.push((format!("(kk {})", w), void()));
+            forms.push(("total".into(), format!("ok {}", 2 * v + w)));
+            forms.push((format!("(kk {})", c), void()));
+            forms.push(("total".into(), format!("ok {}", 2 * v + c)));
+        }
+        _ => {
+            // continuation applied through apply; call/cc itself applied through apply
+            forms.push((format!("(+ {} (call/cc (lambda (k) (apply k (list {})))))", c, v), format!("ok {}", c + v)));
+            forms.push((format!("(+ {} (apply call/cc (list (lambda (k) (+ 100 (k {}))))))", c, v), format!("ok {}", c + v)));
+            forms.push((format!("(+ {} (call/cc (lambda (k) (apply k 1 2 (list 3 {})))))", c, w), format!("ok {}", c + w)));
+        }
+    }
+    forms
+}
+
 fn name_tok(s: &str) -> String {
     s.chars().map(|c| (c as u32).to_string()).collect::<Vec<_>>().join(".")
 }
@@ -246,11 +328,15 @@ fn main() {
                     let (e, _) = g.failing_expr(&sc);
                     g.inject = Some((g.int_calls + 1 + (case % 7), e));
                 }
-                let forms = g.session(2 + (case % 5), 1 + case % 3);
+                let forms: Vec<String> = if args.get(3).map(|s| s == "conts").unwrap_or(false) {
+                    cont_scenario(case, &mut g.rng).into_iter().map(|(f, _)| f).collect()
+                } else {
+                    g.session(2 + (case % 5), 1 + case % 3).iter().map(|f| f.render()).collect()
+                };
                 g.inject = None;
                 let (mut vm, _log) = new_vm();
                 for f in &forms {
-                    let text = f.render();
+                    let text = f.clone();
                     let cell = match marwood::parse::parse_text(&text) {
                         Ok((c, _)) => c,
                         Err(_) => continue,
@@ -545,8 +631,20 @@ fn main() {
                 writeln!(out, "#oracle tail-hwm {}\t{}\t{}", oneline(&defs.join(" ")), observed, expected).unwrap();
             }
         }
+        // C05: continuation scenarios against their closed-form expectations
+        "conts" => {
+            let n: usize = args[2].parse().unwrap();
+            let mut rng = Rng::new(seed() ^ 0xc05);
+            for case in 0..n {
+                let (mut vm, _log) = new_vm();
+                for (f, exp) in cont_scenario(case, &mut rng) {
+                    let r = eval_form(&mut vm, &f);
+                    writeln!(out, "#oracle callcc case{} {}\t{}\t{}", case % 9, oneline(&f), oneline(&render(&r)), oneline(&exp)).unwrap();
+                }
+            }
+        }
         _ => {
-            eprintln!("usage: vm sliced N | trace N [fail] | errtrace N | compile N | tailloops N [BIG]");
+            eprintln!("usage: vm sliced N | trace N [fail|conts] | errtrace N | compile N | tailloops N [BIG] | conts N");
             std::process::exit(2);
         }
     }
